@@ -27,6 +27,7 @@ type harness struct {
 	noWarn bool
 	cpus   int
 	inline *string // if set, ReadInputs parses this text instead of reading files
+	answer *string // if set, what the user types when a command asks for confirmation
 }
 
 var scratchCounter int64
@@ -98,6 +99,14 @@ type hctx struct {
 
 func (c *hctx) Now() gotime.Time { return c.h.now }
 func (c *hctx) Print(s string)   { c.out.WriteString(s) }
+
+// ReadLine answers a confirmation prompt with the scripted answer (the real one reads stdin).
+func (c *hctx) ReadLine() (string, app.Error) {
+	if c.h.answer != nil {
+		return *c.h.answer, nil
+	}
+	return "", app.NewErrorWithCode(app.IO_ERROR, "Cannot process input", "Reading from stdin failed", nil)
+}
 
 // ReadInputs parses the inline text (if any) with the engine the real context would select.
 func (c *hctx) ReadInputs(files ...app.FileOrBookmarkName) ([]klog.Record, app.Error) {
